@@ -798,7 +798,7 @@ def strat_history():
 
 
 FAMILIES = [
-    Family("history", evaluate, strategy=strat_history, n_quick=100, n_thorough=1800, shards_quick=8, shards_thorough=16,
+    Family("history", evaluate, strategy=strat_history, n_quick=200, n_thorough=1800, shards_quick=8, shards_thorough=16,
            required_labels=["kind=frame", "kind=model", "kind=series", "validate=accept", "validate=reject",
                             "fail-then-op", "serialise-then-use", "op=statistics", "op=to_yaml", "op=to_script",
                             "op=rename_columns", "op=component_validate", "has_regex", "has_tz_agnostic",
